@@ -819,6 +819,11 @@ type badgerBatch struct {
 	updatedNodes []updatedNode
 	newRootValue []byte
 
+	// origDbPtrs are the original database pointers of the in-memory pointers that got a new one
+	// assigned by this batch. In case the batch is not committed the assignment needs to be
+	// reverted as otherwise a later batch would reuse indices that were never written.
+	origDbPtrs map[*node.Pointer]node.DBPointer
+
 	mpLock *sync.Mutex
 }
 
@@ -904,6 +909,7 @@ func (ba *badgerBatch) Commit(root node.Root) error {
 		if err := ba.db.checkRootExists(tx, root); err == nil {
 			// No need to do anything since if the hash matches, everything will be identical and we
 			// would just be duplicating work.
+			ba.origDbPtrs = nil
 			ba.Reset()
 			return ba.BaseBatch.Commit(root)
 		}
@@ -967,6 +973,9 @@ func (ba *badgerBatch) Commit(root node.Root) error {
 		return fmt.Errorf("mkvs/pathbadger: failed to flush batch: %w", err)
 	}
 
+	// Nodes have been written so the assigned database pointers are now valid.
+	ba.origDbPtrs = nil
+
 	ba.Reset()
 	return ba.BaseBatch.Commit(root)
 }
@@ -984,6 +993,12 @@ func (ba *badgerBatch) Reset() {
 	ba.annotations = nil
 	ba.updatedNodes = nil
 	ba.newRootValue = nil
+
+	// Revert any database pointers assigned by a batch that was not committed.
+	for ptr, orig := range ba.origDbPtrs {
+		ptr.DBInternal = orig
+	}
+	ba.origDbPtrs = nil
 
 	if ba.mpLock != nil {
 		ba.mpLock.Unlock()
